@@ -144,6 +144,12 @@ def check_trace(prog, trace, mdl, part, extra=False, idnmsgs=None, src="hist", f
                 continue
             _, idx, obs, live, expblocks, fresh, fired, fcode, dconf, dtld, dallow = st
             if dconf != confirmed:
+                if any(o[0] == "C" for o in prog):
+                    # a planned back-end creation failure was consumed by a creation the model does not know about (a library may
+                    # create its context lazily): the rest of this history is not judged step by step; the ledgers in the end
+                    # record (blocks, contexts created / destroyed) still are
+                    cnt["history.not-judged-after-unexpected-create"] += 1
+                    return trace[-1]
                 raise core.Inconclusive("driver/model confirmed mode diverge: %s vs %s in %s" % (dconf, confirmed, wit))
             if (dtld, dallow) != (tld, allow):
                 part["viol"].append(("settings-changed-by-library", wit, {"step": op, "tld_check,allow_tld": [dtld, dallow],
